@@ -73,7 +73,7 @@ func VerifH_server_prefix() {
 	prefix := prefixes[vfChoice(len(prefixes))]
 
 	// the request, as path under the prefix
-	var method, path, ct string
+	var method, path, ct, query string
 	major := 1
 	var body []byte
 	fail, twirp := false, false
@@ -83,6 +83,10 @@ func VerifH_server_prefix() {
 		vfAssume(seg != "." && seg != "..") // net/http.ServeMux redirects unclean paths before any handler sees them: unspecified
 		method, path, ct = "POST", "/aa/"+seg, "application/x"
 		body = []byte("b")
+		if vfBool() {
+			query = "g=" + vfPlainString(2) // the query string belongs to the request, whatever the mount prefix
+			vfCover("query")
+		}
 		vfCover("transcoding")
 	case 1:
 		method, path, ct = "POST", "/aa/zz", "application/x"
@@ -112,7 +116,7 @@ func VerifH_server_prefix() {
 		bsrv.err = errVfCodec
 	}
 	mk := func(p string) *http.Request {
-		r := &http.Request{Method: method, URL: &url.URL{Path: p}, Host: "h", RequestURI: p,
+		r := &http.Request{Method: method, URL: &url.URL{Path: p, RawQuery: query}, Host: "h", RequestURI: p,
 			Header: http.Header{"Content-Type": []string{ct}, "Accept": []string{"application/x"}},
 			Body:   vfNopCloser{&vfWholeReader{data: body}}, ContentLength: int64(len(body)), ProtoMajor: major, ProtoMinor: 1}
 		if twirp {
@@ -129,6 +133,7 @@ func VerifH_server_prefix() {
 	vfCheck(msrv.calls == bsrv.calls, "a request under a mount prefix does not reach the handler as it does on the bare mux")
 	if msrv.calls == 1 && bsrv.calls == 1 && len(msrv.got) == 1 && len(bsrv.got) == 1 {
 		vfCheck(msrv.got[0].str("f") == bsrv.got[0].str("f"), "path variables captured under a mount prefix differ from the bare mux")
+		vfCheck(msrv.got[0].str("g") == bsrv.got[0].str("g"), "query parameters under a mount prefix differ from the bare mux")
 	}
 	vfCheck(len(marker.hits) == 0, "a request under the mux's prefix reached another handler")
 
